@@ -153,25 +153,33 @@ Definition mk_inline_items (l : list (bytes * value)) : kvs :=
 Definition mk_tbl_items (l : list (bytes * item)) : kvs :=
   map (fun kv => (key_new (fst kv), snd kv)) l.
 
-Inductive BuiltValue : value -> Prop :=
-| BV_scalar s d : decor_built d -> BuiltValue (VScalar s None d)
-| BV_array es d : decor_built d -> Forall BuiltValue es ->
-    BuiltValue (VArray (map IValue es) REmpty false d None)
-| BV_inline l d : decor_built d -> NoDup (map fst l) -> Forall BuiltValue (map snd l) ->
-    BuiltValue (VInline (mk_inline_items l) REmpty false false d None).
+(* PS: the admissible leaves, PK: the admissible keys (e.g. "valid UTF-8"; `fun _ => True` for all) *)
+Section Built.
+  Variable PS : scalar -> Prop.
+  Variable PK : bytes -> Prop.
 
-Inductive BuiltItem : item -> Prop :=
-| BI_value v : BuiltValue v -> BuiltItem (IValue v)
-| BI_table l : NoDup (map fst l) -> Forall BuiltItem (map snd l) ->
-    BuiltItem (ITable (Tbl (mk_tbl_items l) decor_default false false None None))
-| BI_aot ls : Forall (fun l => NoDup (map fst l) /\ Forall BuiltItem (map snd l)) ls ->
-    BuiltItem (IAot (map (fun l => Tbl (mk_tbl_items l) decor_default false false None None) ls) None).
+  Inductive BuiltValue : value -> Prop :=
+  | BV_scalar s d : PS s -> decor_built d -> BuiltValue (VScalar s None d)
+  | BV_array es d : decor_built d -> Forall BuiltValue es ->
+      BuiltValue (VArray (map IValue es) REmpty false d None)
+  | BV_inline l d : decor_built d -> NoDup (map fst l) -> Forall PK (map fst l) -> Forall BuiltValue (map snd l) ->
+      BuiltValue (VInline (mk_inline_items l) REmpty false false d None).
 
-(* a constructed table (Table::new + inserts); `pos` is None, or Some 0 for the root of DocumentMut::new() *)
-Definition BuiltTbl (t : tbl) : Prop :=
-  exists l pos, NoDup (map fst l) /\ Forall BuiltItem (map snd l) /\
-                (pos = None \/ pos = Some 0%N) /\
-                t = Tbl (mk_tbl_items l) decor_default false false pos None.
+  (* the entries of a constructed table: Table::new() + inserts *)
+  Inductive BuiltItem : item -> Prop :=
+  | BI_value v : BuiltValue v -> BuiltItem (IValue v)
+  | BI_table l : BuiltEntries l ->
+      BuiltItem (ITable (Tbl (mk_tbl_items l) decor_default false false None None))
+  | BI_aot ls : Forall BuiltEntries ls ->
+      BuiltItem (IAot (map (fun l => Tbl (mk_tbl_items l) decor_default false false None None) ls) None)
+  with BuiltEntries : list (bytes * item) -> Prop :=
+  | BE l : NoDup (map fst l) -> Forall PK (map fst l) -> Forall BuiltItem (map snd l) -> BuiltEntries l.
+
+  (* a constructed table; `pos` is None, or Some 0 for the root of DocumentMut::new() *)
+  Definition BuiltTbl (t : tbl) : Prop :=
+    exists l pos, BuiltEntries l /\ (pos = None \/ pos = Some 0%N) /\
+                  t = Tbl (mk_tbl_items l) decor_default false false pos None.
+End Built.
 
 (* ---- the abstract tree ----------------------------------------------------------------------- *)
 Inductive aval : Set :=
